@@ -97,6 +97,16 @@ pub fn run(seed: u64, count: usize, thorough: bool, out: &mut Out) {
                 let mut t = toks.clone();
                 t[i].0 = v.to_string();
                 emit(out, ciftext::join(&t).as_bytes(), rng.below(8), rng.below(3), &format!("token:{class}"));
+                // the same with the replaced token (and the two after it) on the line of the token before: a diagnostic in the
+                // middle of a line, at a column beyond the length of the item it marks
+                if t[i - 1].1.contains('\n') && rng.chance(1, 2) {
+                    for j in (i - 1)..(i + 2).min(t.len()) {
+                        if t[j].1.contains('\n') {
+                            t[j].1 = " ".to_string();
+                        }
+                    }
+                    emit(out, ciftext::join(&t).as_bytes(), rng.below(8), rng.below(3), &format!("token-midline:{class}"));
+                }
             }
         }
         // token deleted
